@@ -28,7 +28,7 @@ ASSUMPTIONS = [
 ]
 
 IPS = ["192.0.2.7", "198.51.100.9", "2001:db8::5"]
-CERTS = [None, "ec-a", "rsa-a", "ed-a", "twin-a", "twin-b", "chain:ec-b:ec-a", "chain:ec-b:rsa-a", "ec-expired"]
+CERTS = [None, "ec-a", "rsa-a", "ed-a", "twin-a", "twin-b", "chain:ec-b:ec-a", "chain:ec-b:rsa-a", "ec-expired", "ec-nocn", "ec-nosubject"]
 
 
 def fp_of(kind):
